@@ -78,7 +78,9 @@ def union_ties(a, b):
 
 
 def _is_tied(ties, g):
-    return ties == ALL_TIED or g in ties
+    # direction-insensitive: sheXer's choice (OR) serializer omits the '^' of inverse constraints, so a
+    # tie found in the inverse group of the profile shows up in what reads as the direct group
+    return ties == ALL_TIED or (g[0], True, g[2]) in ties or (g[0], False, g[2]) in ties
 
 
 # ---------------------------------------------------------------------------
@@ -104,7 +106,7 @@ def _short(x, n=6):
     return [repr(e) for e in x[:n]]
 
 
-def compare_texts(a_text, b_text, ties=frozenset(), demand="L2", check_stems=True):
+def compare_texts(a_text, b_text, ties=frozenset(), demand="L2", check_stems=True, contradiction_check=True):
     """Return None if the two ShExC documents agree up to `demand`
     (L0 < L1 < L2), else the most severe Diff.  `ties` relaxes L2 -> L0 +
     no-contradiction inside tied (label, inv, pred) groups."""
@@ -134,13 +136,15 @@ def compare_texts(a_text, b_text, ties=frozenset(), demand="L2", check_stems=Tru
     fb = {f for f in B.facts if not _is_tied(ties, f[:3])}
     if fa != fb:
         return Diff("L1", "facts", _short(fa ^ fb))
-    # tied groups: no contradictory fact
-    ca = {}
-    for f in A.facts:
-        ca[f[:5]] = f[5]
-    for f in B.facts:
-        if f[:5] in ca and ca[f[:5]] != f[5]:
-            return Diff("L1", "contradictory_fact", [repr(f), ca[f[:5]]])
+    # tied groups: no contradictory fact (the same fact never appears with two different counts).  Not
+    # applicable when exact cardinalities are generalised to '+' on output: distinct facts then share a key.
+    if contradiction_check:
+        ca = {}
+        for f in A.facts:
+            ca[f[:5]] = f[5]
+        for f in B.facts:
+            if f[:5] in ca and ca[f[:5]] != f[5]:
+                return Diff("L1", "contradictory_fact", [repr(f), ca[f[:5]]])
     if demand == "L1":
         return None
     # ---- L2
